@@ -209,6 +209,9 @@ func runRestoreJob(j rJob, root, outPath string) rResult {
 	}
 	pre := []byte("pre-existing output, must stay")
 	if j.Kind == "preexist" {
+		if j.Arg == 1 {
+			pre = []byte{} // a zero-length file: e.g. a database an application has opened and not written yet
+		}
 		_ = os.WriteFile(outPath, pre, 0o644)
 	}
 	if j.Kind == "staletmp" {
@@ -584,6 +587,7 @@ func genRestore(e *env) error {
 		add(s, rJob{Kind: "cancelled", Integ: 1, Cancel: true, Class: s.name + "/cancelled-context+quick_check"})
 		add(s, rJob{Kind: "cancelled", Integ: 0, Cancel: true, Class: s.name + "/cancelled-context"})
 		add(s, rJob{Kind: "preexist", Class: s.name + "/pre-existing-output"})
+		add(s, rJob{Kind: "preexist", Arg: 1, Class: s.name + "/pre-existing-empty-output"})
 		// a staging file left over from a killed earlier restore: longer than, and shorter than, the image
 		add(s, rJob{Kind: "staletmp", Arg: 4 << 20, Class: s.name + "/stale-longer-temp-file"})
 		add(s, rJob{Kind: "staletmp", Arg: 4 << 20, Integ: 1, Class: s.name + "/stale-longer-temp-file+quick_check"})
